@@ -733,6 +733,11 @@ static bool run_op(Ctx& x, const Words& w)
       x.io.restart();
       x.io.poll();
     }
+    else if (op == "sleep")
+    {
+      // sleep <ms>: let real time pass WITHOUT running the event loop (timers expire, their handlers stay queued)
+      std::this_thread::sleep_for(std::chrono::milliseconds(std::stoul(w.at(1))));
+    }
     else if (op == "wait")
     {
       // wait <ms>: let real time pass (timers), then run what became ready
